@@ -14,7 +14,8 @@ def run(ctx):
     bins = C.harness_build(ctx, "srv", ["metrics"])
     if not bins:
         return
-    runs = [(20, 8, 10000), (6, 2, 5000), (4, 32, 3000)] if ctx.tier == "quick" else [(60, 64, 200000), (40, 8, 100000), (20, 2, 100000)]
+    # the last shape: thousands of short rounds - a lost update is visible only if it is the LAST write before a join
+    runs = [(20, 8, 10000), (6, 2, 5000), (4, 32, 3000), (5000, 4, 64)] if ctx.tier == "quick" else [(60, 64, 200000), (40, 8, 100000), (20, 2, 100000), (100000, 4, 64)]
     total_events = 0
     points = 0
     samples = []
